@@ -308,9 +308,14 @@ def gen_cases(tier, seed):
         streams = [{'start': 0.0, 'ops': [(100, rng.choice([0.0, 0.01]))] * 15} for _ in range(S)]
         cases.append({'family': 'coarse', 'seed': rng.randrange(1 << 30), 'max': mx, 'threshold': 100, 'streams': streams,
                       'lateness': 'none', 'profile': 'coarse'})
-    for i in range(6 if quick else 30):
-        cases.append({'family': 'e2e', 'seed': rng.randrange(1 << 30), 'kind': rng.choice(['upload', 'download']),
-                      'size': rng.choice([300 * 1024, 700 * 1024]), 'max': 200 * 1024.0})
+    # end to end: every way data enters or leaves a manager with max_bandwidth set must pass through the limiter
+    for rep in range(1 if quick else 4):
+        for kind, ends in (('upload', ('path', 'seekable', 'nonseekable')), ('download', ('path', 'seekable', 'nonseekable'))):
+            for end in ends:
+                for multi in (False, True):
+                    cases.append({'family': 'e2e', 'seed': rng.randrange(1 << 30), 'kind': kind, 'end': end, 'multi': multi,
+                                  'conc': rng.choice([1, 1, 2]), 'size': rng.choice([4, 5]) * 1024 * 1024 + rng.choice([0, 12345]),
+                                  'max': 1024 * 1024.0})
     return cases
 
 
@@ -337,12 +342,16 @@ def run_e2e(case):
     try:
         size = case['size']
         t = {'kind': case['kind'], 'size': size}
-        if case['kind'] == 'upload':
-            t['src'] = 'path'
+        t['src' if case['kind'] == 'upload' else 'dst'] = case.get('end', 'path')
+        MB = 1024 * 1024
+        conc = case.get('conc', 1)
+        cfg = dict(max_bandwidth=int(case['max']), io_chunksize=64 * 1024, max_request_concurrency=conc)
+        if case.get('multi'):
+            cfg.update(multipart_threshold=MB, multipart_chunksize=MB)
         else:
-            t['dst'] = 'path'
-        spec = {'seed': case['seed'], 'config': dict(max_bandwidth=int(case['max']), multipart_threshold=64 * 1024 * 1024, io_chunksize=64 * 1024),
-                'transfers': [t], 'body_read_sizes': [16384]}
+            cfg.update(multipart_threshold=64 * MB)
+        spec = {'seed': case['seed'], 'config': cfg, 'transfers': [t], 'body_read_sizes': [16384], 'min_part': MB}
+        burst = (2 * conc + 1) * 256 * 1024
 
         def ev(obs):
             viol = []
@@ -351,11 +360,16 @@ def run_e2e(case):
                 if x.outcome != 'success':
                     viol.append(V(f'e2e {x.kind} with max_bandwidth failed: {x.exc!r}', sym='e2e-failed', family='e2e'))
             dur = sim.now
-            need = (size - 3 * 256 * 1024) / (1.25 * case['max'])
+            need = (size - burst) / (1.25 * case['max'])
             if dur < need:
-                viol.append(V(f'e2e {case["kind"]} of {size} bytes at max_bandwidth={case["max"]} took {dur:.3f}s of virtual time; the limit '
+                viol.append(V(f'e2e {case["kind"]} ({case.get("end")}, {"multipart" if case.get("multi") else "single"}) of {size} bytes at max_bandwidth={case["max"]} took {dur:.3f}s of virtual time; the limit '
                               f'requires at least {need:.3f}s', sym='e2e-not-throttled', family='e2e'))
-            return viol, {'e2e_runs': 1, 'e2e_sleeps': len(sim.sleeps)}, len(sim.sleeps) > 0, {'virtual_duration': dur, 'sleeps': len(sim.sleeps)}
+            nreq = len([e for e in obs.events if e['kind'] == 'api.begin' and e['op'] in ('UploadPart', 'GetObject', 'PutObject')])
+            st = {'e2e_runs': 1, 'e2e_sleeps': len(sim.sleeps), 'e2e_' + case['kind'] + '_' + str(case.get('end')) + ('_multi' if case.get('multi') else '_single'): 1,
+                  'e2e_data_requests': nreq}
+            if bool(case.get('multi')) != (nreq > 1):
+                return viol, st, False, {'note': 'mode not as intended', 'requests': nreq}
+            return viol, st, need > 0, {'virtual_duration': dur, 'required': need, 'sleeps': len(sim.sleeps)}
 
         return e2e.run_with(spec, ev)
     finally:
